@@ -344,6 +344,30 @@ def replay_two_solvers(obl):
                 if tp is None and j == 1 and (a.max() > 1.5 or np.allclose(a, a[0]) and a[0] == 0):
                     bad.append(dict(what="terminal sites do not evolve freely in a solve with terminal_psi=None that follows a pinned solve on the same device",
                                     order=[str(x) for x in order], max_abs_psi_on_terminals=float(a.max())))
+        # contact pads that cover only PART of a film edge: the pinned sites are the boundary sites inside the terminal polygons and no others
+        # (a boundary edge whose centre is inside a pad may end at a site outside it)
+        import h5py
+        from tdgl.geometry import box
+        layer = tdgl.Layer(coherence_length=0.5, london_lambda=2, thickness=0.1)
+        film = tdgl.Polygon("film", points=box(4, 2, points=41))
+        pads = [tdgl.Polygon("source", points=box(0.2, 0.93)).translate(dx=-2, dy=0.31), tdgl.Polygon("drain", points=box(0.2, 0.77)).translate(dx=2, dy=-0.22)]
+        d2 = tdgl.Device("pads", layer=layer, film=film, terminals=pads, length_units="um")
+        d2.make_mesh(max_edge_length=0.3, smooth=2)
+        inside = np.zeros(len(d2.points), dtype=bool)
+        for trm in d2.terminals:
+            inside |= trm.contains_points(d2.points)
+        o = tdgl.SolverOptions(solve_time=1.0, terminal_psi=0.0, output_file=os.path.join(td, "pads.h5"), save_every=20)
+        sol = tdgl.solve(d2, o, applied_vector_potential=0.1, terminal_currents=dict(source=1.0, drain=-1.0))
+        with h5py.File(sol.path, "r") as f:
+            P = np.array([np.array(f["data"][k]["psi"]) for k in sorted(f["data"], key=int)])
+        always_zero = np.all(P == 0, axis=0)
+        wrong = np.flatnonzero(always_zero & ~inside)
+        if len(wrong):
+            bad.append(dict(what="sites outside every terminal polygon are pinned (psi == 0 exactly at every recorded step)", sites=wrong.tolist()[:8],
+                            positions=d2.points[wrong][:4].tolist(), frames=len(P), device="4 x 2 film, pads 0.2 x 0.93 at (-2, 0.31) and 0.2 x 0.77 at (2, -0.22), max_edge_length 0.3"))
+        missing = np.flatnonzero(inside & np.isin(np.arange(len(d2.points)), d2.mesh.boundary_indices) & ~np.all(P[1:] == 0, axis=0))
+        if len(missing):
+            bad.append(dict(what="boundary sites inside a terminal polygon are not held at the terminal value 0", sites=missing.tolist()[:8]))
     logging.disable(logging.NOTSET)
     return dict(confirmed=bool(bad), failing_history=bad[:2])
 
